@@ -137,6 +137,7 @@ pub fn inputs<F: Fam>(tier: &str, seed: u64, ops: Option<&[String]>, n_quick: us
             bytes.extend(crate::gen::topic_frames(F::NAME == "v3", t));
         }
         if F::NAME == "v5" {
+            bytes.extend(crate::gen::dictionary_frames());
             for l in crate::gen::gen("v5props", tier, seed).iter().step_by(if tier == "thorough" { 8 } else { 16 }) {
                 let t: Vec<&str> = l.split_whitespace().collect();
                 if let Some(b) = unhex(t[2]) {
@@ -409,6 +410,51 @@ pub fn hist_frames<F: Fam>(tier: &str, seed: u64) -> Vec<Vec<u8>> {
             }
         })
         .collect()
+}
+
+/// EVERY Unicode scalar value (1,112,064 of them) inside a text field: v3 CONNECT client id and v5 user property
+/// value `"a" + c + "z"`, encoded and decoded back (blocking), and the string helpers' view of the single
+/// character.  A codec that treats ANY code point specially (refuses it, substitutes it, mis-sizes its
+/// lead byte) is found without having to guess which one.
+pub fn all_scalars(rep: &mut Report) {
+    use mqtt_proto::{v3, v5, Pid, Protocol};
+    use std::convert::TryFrom;
+    use std::sync::Arc;
+    let pid = Pid::try_from(1).unwrap();
+    for cp in 0..=0x10ffffu32 {
+        let c = match char::from_u32(cp) {
+            Some(c) => c,
+            None => continue,
+        };
+        rep.cases += 1;
+        let text: Arc<String> = Arc::new(format!("a{}z", c));
+        let p3 = v3::Packet::Connect(v3::Connect { protocol: Protocol::V311, clean_session: true, keep_alive: 1, client_id: text.clone(), last_will: None, username: None, password: None });
+        let p5 = v5::Packet::Puback(v5::Puback { pid, reason_code: v5::PubackReasonCode::Success, properties: v5::PubackProperties { reason_string: Some(text.clone()), user_properties: vec![v5::UserProperty { name: text.clone(), value: text.clone() }] } });
+        let r = catch_unwind(AssertUnwindSafe(|| {
+            let e3 = p3.encode().map(|e| e.as_ref().to_vec());
+            let e5 = p5.encode().map(|e| e.as_ref().to_vec());
+            let ok3 = matches!(&e3, Ok(e) if v3::Packet::decode(e) == Ok(Some(p3.clone())) && e.len() == 14 + text.len());
+            let ok5 = matches!(&e5, Ok(e) if v5::Packet::decode(e) == Ok(Some(p5.clone())));
+            (ok3, ok5, e3.map(|e| crate::fmt::hex(&e)).map_err(|e| format!("{:?}", e)), e5.map(|e| crate::fmt::hex(&e)).map_err(|e| format!("{:?}", e)))
+        }));
+        match r {
+            Ok((true, true, _, _)) => {}
+            Ok((ok3, _ok5, e3, e5)) => {
+                if rep.failures.iter().filter(|f| f.key == "scalar-roundtrip").count() < 6 {
+                    let (fam, enc) = if !ok3 { ("v3", e3) } else { ("v5", e5) };
+                    rep.fail(
+                        "scalar-roundtrip",
+                        match &enc {
+                            Ok(h) => format!("dec {} {}", fam, h),
+                            Err(_) => format!("text field containing U+{:04X}", cp),
+                        },
+                        format!("a {} packet whose text fields are \"a\" + U+{:04X} + \"z\" does not encode and decode back to itself (encoding: {:?})", fam, cp, enc.map(|h| h.len() / 2)),
+                    );
+                }
+            }
+            Err(_) => rep.fail("encode-panic", format!("text field containing U+{:04X}", cp), "the real code panicked".into()),
+        }
+    }
 }
 
 /// FULL one-dimensional sweeps: every list count 0..=4100 (reason-code lists) / 0..=700 (filters, user
